@@ -212,7 +212,38 @@ impl<T: Qcow2IoOps> Qcow2Dev<T> {
             MappingSource::DataFile => self.do_read_data_file(mapping, off_in_cls, buf).await,
             MappingSource::Zero | MappingSource::Unallocated => self.do_read_zero(buf).await,
             MappingSource::Backing => self.do_read_backing(mapping, off_in_cls, buf).await,
-            MappingSource::Compressed => self.do_read_compressed(mapping, off_in_cls, buf).await,
+            MappingSource::Compressed => {
+                // A copy-on-write of this cluster by another task releases
+                // (and punches) the compressed data as soon as the new
+                // mapping is in place, and the entry we were given may be
+                // that old by now.  Look it up again and keep the slice
+                // locked while the compressed data is read: the COW needs
+                // the slice's write lock before it can start.
+                let l2_handle = self.get_l2_slice(&split).await?;
+                let l2_slice = l2_handle.value().read().await;
+                let mapping = l2_slice
+                    .get_entry(&self.info, &split)
+                    .into_mapping(&self.info, &split);
+
+                match mapping.source {
+                    MappingSource::Compressed => {
+                        self.do_read_compressed(mapping, off_in_cls, buf).await
+                    }
+                    // replaced meanwhile
+                    MappingSource::DataFile => {
+                        drop(l2_slice);
+                        self.do_read_data_file(mapping, off_in_cls, buf).await
+                    }
+                    MappingSource::Zero | MappingSource::Unallocated => {
+                        drop(l2_slice);
+                        self.do_read_zero(buf).await
+                    }
+                    MappingSource::Backing => {
+                        drop(l2_slice);
+                        self.do_read_backing(mapping, off_in_cls, buf).await
+                    }
+                }
+            }
         }
     }
 
